@@ -4,6 +4,7 @@
 #include <rapidcheck.h>
 #include <rapidcheck/state.h>
 #include <sanitizer/asan_interface.h>
+#include <sanitizer/lsan_interface.h>
 #include <sanitizer/allocator_interface.h>
 #include <string>
 #include <vector>
@@ -15,6 +16,7 @@
 #include <unistd.h>
 #include <fcntl.h>
 extern "C" {
+#include <sanitizer/lsan_interface.h>
 #include "libMultiMarkdown.h"
 #include "d_string.h"
 #include "token.h"
@@ -187,6 +189,7 @@ static void build_docs() {
 	}
 }
 
+static bool leak_seen = false;
 static int replay(const char * path) {
 	std::ifstream f(path); std::string line; Model m; int n = 0; int rc_ = 0;
 	{
@@ -201,6 +204,7 @@ static int replay(const char * path) {
 		}
 	}
 	cleanup_globals();
+	if (!rc_ && __lsan_do_recoverable_leak_check()) { printf("MISMATCH after the last command: memory is leaked by this history (LeakSanitizer)\n"); rc_ = 1; }
 	if (!rc_) printf("replay ok: %d commands\n", n);
 	return rc_;
 }
@@ -227,7 +231,18 @@ int main(int argc, char ** argv) {
 			Guard g;            // restores the pristine global pool state after every case (after the SUT's engines are gone)
 			Model m; Sut u;
 			try { state::check(m, u, state::gen::execOneOfWithArgs<OpCmd>()); }
-			catch (...) { std::string j; for (auto & o : t.ops) { j += ser(o); j += "\n"; } S.last_fail_journal = j; cur = nullptr; throw; }
+			catch (...) { if (!leak_seen) { std::string j; for (auto & o : t.ops) { j += ser(o); j += "\n"; } S.last_fail_journal = j; } cur = nullptr; throw; }
+		}
+		// everything the history allocated has been released by now (engines freed, pool drained and freed): whatever is still allocated but
+		// no longer reachable was lost by the pool protocol (e.g. an init after an outermost drain that builds a second pool)
+		if (__lsan_do_recoverable_leak_check()) {
+			// (LeakSanitizer goes on reporting a lost block in every later check, so only the FIRST history that leaks is the culprit; the
+			// shrinking that follows cannot make it smaller and must not replace it)
+			static std::string first_leak;
+			if (first_leak.empty()) { for (auto & o : t.ops) { first_leak += ser(o); first_leak += "\n"; } }
+			S.last_fail_journal = first_leak; S.last_fail_msg = "memory is leaked by this history (LeakSanitizer)"; cur = nullptr;
+			leak_seen = true;
+			RC_FAIL("memory is leaked by this history (LeakSanitizer)");
 		}
 		cur = nullptr;
 		S.cases++; S.commands += t.ops.size();
